@@ -23,7 +23,7 @@ RULE = ('pattern-family sweep: all sources k..*, all targets m..* for k in 0..2,
         'vectors per pattern; a case is one (settings, encoder, imputer, pattern); non-trivial = the pattern has >= 2 '
         'valid matrices; distinct by content hash')
 BUDGET = {'quick': 100, 'thorough': 1500}
-JOBS = {'quick': 4, 'thorough': 16}
+JOBS = {'quick': 8, 'thorough': 16}
 ASSUMPTIONS = ['encoder-specific encode/decode algorithms are table producers validated per instance (Table.WF, matrices of '
                'the table = valid set), not proved; which row an imputer picks is an oracle constrained to "a row of the '
                'table"; lazy/pattern/enumerating encoders are checked behaviourally against the Lean-computed valid sets',
@@ -144,7 +144,7 @@ def run(ctx, rep):
             break
     # 2. pattern-family sweep (deterministic): all sources k..*, all targets m..*, uniform repeat flag - the settings the
     #    assigning / partitioning / combining pattern encoders are made for, for every small k, m and size
-    fam = [(ks, kt, r, sz) for ks in (0, 1, 2) for kt in (0, 1) for r in (False, True) for sz in ((1, 3), (2, 2), (2, 3))]
+    fam = [(ks, kt, r, sz) for ks in (0, 1, 2) for kt in (0, 1) for r in (False, True) for sz in ((1, 3), (2, 2), (2, 3))][::1]
     pat = [f for f in encmgr.factories() if f['kind'] in ('pattern', 'enum')]
     for fi, (ks, kt, r, (ns_, nt_)) in enumerate(fam):
         if not ctx.mine(fi):
@@ -155,7 +155,7 @@ def run(ctx, rep):
         if ctx.out_of_time():
             break
     # 3. seeded settings
-    n = ctx.pick(120, 3000)
+    n = ctx.pick(90, 3000)
     i = 0
     for i in range(n):
         uniform = i % 3 == 2
